@@ -353,6 +353,9 @@ func (s *Spec) Step(ctx context.Context, st *State, pending interface{}, c *Cont
 		if bs == nil {
 			bs = NewBindings()
 		}
+		// Extend a copy: an action can legitimately return the
+		// very map it was given, which belongs to the caller.
+		bs = bs.Copy()
 		bs, _ = bs.Extendm("error", "Action node followed no branch",
 			"lastNode", givenState.NodeName,
 			"lastBindings", givenState.Bs.Copy())
